@@ -76,6 +76,7 @@ def build_unit(unit, workcopy, dropped=()):
     fn_ob = {}
     under_contract = []
     helpers = []
+    lost = []
     for frag in unit.get("prelude", []):
         out.append("// ---- prelude fragment: %s ----\n" % frag)
         out.append(_read(os.path.join(PRELUDE, frag)))
@@ -122,7 +123,12 @@ def build_unit(unit, workcopy, dropped=()):
                 lo, hi = vx.extract_block_as_fn(src, loc, item, ed)
             except Undecided as e:
                 if not item.get("optional_item"):
-                    raise
+                    # a BLOCK item whose anchor is lost is a stand-alone fn: the rest of the unit is still
+                    # verified; a failure there stands, otherwise the unit is undecided for this reason
+                    lost.append(str(e))
+                    log.append("LOST block %s (%s): the other items of the unit are still verified" % (item.get("as_fn"), str(e)[:160]))
+                    out.pop()
+                    continue
                 # an OPTIONAL block (e.g. a closure that a variant of the code writes inline): its obligation
                 # is then carried by the enclosing function, whose text is taken verbatim where the block was
                 log.append("OPTIONAL block %s not present (%s): skipped" % (item.get("as_fn"), str(e)[:120]))
@@ -187,6 +193,7 @@ def build_unit(unit, workcopy, dropped=()):
     out.append(canary)
     out.append(FOOTER)
     build_unit.helpers = helpers
+    build_unit.lost = lost
     return "".join(out), log, fn_ob, under_contract
 
 
@@ -233,6 +240,7 @@ def _run_unit_once(name, workcopy, outdir, timeout=600, rlimit=None, dropped=(),
         with _BUILD_LOCK:
             text, log, fn_ob, under = build_unit(unit, workcopy, dropped)
             res["helpers"] = list(getattr(build_unit, "helpers", []))
+            res["lost_items"] = list(getattr(build_unit, "lost", []))
     except Undecided as e:
         res["reason"] = str(e)
         res["wall_s"] = time.time() - t0
@@ -370,6 +378,10 @@ def _run_unit_once(name, workcopy, outdir, timeout=600, rlimit=None, dropped=(),
     if failures:
         res["status"] = "fail"
         res["failed"] = failures
+        return res
+    if res.get("lost_items"):
+        # nothing failed in what could still be verified, but part of the unit lost its anchor
+        res["reason"] = res["lost_items"][0]
         return res
     if vr.get("errors", 0) != 1:
         res["reason"] = "unexpected error count %s" % vr.get("errors")
